@@ -6,6 +6,7 @@ import (
 	"go/token"
 	"go/types"
 	"math/big"
+	"os"
 	"sort"
 	"strings"
 
@@ -51,6 +52,7 @@ type Obl struct {
 	Status string // proved, failed, unknown
 	Solver string
 	Time   float64
+	Wall   float64
 	Model  string
 	Script string
 }
@@ -61,10 +63,11 @@ type bstate struct {
 }
 
 type loopInfo struct {
-	header  *ssa.BasicBlock
-	body    map[*ssa.BasicBlock]bool
-	backs   []*ssa.BasicBlock
-	ordinal int
+	entryHeap map[string]string // heap on the (single) entry edge
+	header    *ssa.BasicBlock
+	body      map[*ssa.BasicBlock]bool
+	backs     []*ssa.BasicBlock
+	ordinal   int
 }
 
 type nameDef struct {
@@ -117,6 +120,10 @@ type Enc struct {
 	inlineStack map[*ssa.Function]bool
 	ranges      map[*ssa.Range]*rangeModel
 	curIterHeap string
+	curHeap     map[string]string
+	curLemma    string
+	protected   map[*loopInfo][]*ssa.Range
+	lemmasUsed  map[string]bool
 	top         *frame
 	specDone    map[string]bool
 	specSigs    map[string]*specSig
@@ -160,6 +167,9 @@ func (e *Enc) oblige(st *bstate, kind, anchor, goal string, pos token.Pos) *Obl 
 }
 
 func fnDisplay(f *ssa.Function) string {
+	if f == nil {
+		return "lemma"
+	}
 	pkg := funcPkg(f)
 	if pkg == nil {
 		return f.String()
@@ -356,8 +366,11 @@ func (e *Enc) evalType(s string, pkg *types.Package) (types.Type, error) {
 	case "ref":
 		return types.Typ[types.UnsafePointer], nil
 	}
-	if pkg == nil {
+	if pkg == nil && e.fn != nil {
 		pkg = funcPkg(e.fn)
+	}
+	if pkg == nil {
+		pkg = dummyPkg
 	}
 	// allow fully qualified "path/to/pkg.Type"
 	if i := strings.LastIndex(s, "/"); i >= 0 && !strings.HasPrefix(s, "[]") && !strings.HasPrefix(s, "*") && !strings.HasPrefix(s, "map[") {
@@ -591,6 +604,10 @@ func (e *Enc) typeInv(term string, t types.Type) string {
 	case "Slice":
 		return app("wfslice", term)
 	}
+	switch types.Unalias(t).Underlying().(type) {
+	case *types.Map, *types.Chan:
+		return app(">=", term, "0") // only sub-objects embedded by value have negative references
+	}
 	if si := e.W.structInfo(t); si != nil {
 		var cs []string
 		for i := 0; i < si.St.NumFields(); i++ {
@@ -806,6 +823,11 @@ func (fr *frame) collectDefs() {
 // lookupName resolves a source-level variable name at a program point.
 func (fr *frame) lookupName(name string, b *ssa.BasicBlock, idx int) (ssa.Value, bool, bool) {
 	cands := fr.defs[name]
+	if os.Getenv("VERIF_DEBUG") == "3" {
+		for _, c := range cands {
+			fmt.Fprintf(os.Stderr, "DEBUG cand %s: %s in b%d idx %d\n", name, c.val.Name(), c.block.Index, c.idx)
+		}
+	}
 	for blk := b; blk != nil; blk = blk.Idom() {
 		limit := len(blk.Instrs)
 		if blk == b {
@@ -821,6 +843,38 @@ func (fr *frame) lookupName(name string, b *ssa.BasicBlock, idx int) (ssa.Value,
 			}
 		}
 		if best != nil {
+			if _, isConst := best.val.(*ssa.Const); isConst {
+				// A constant recorded at the declaration may be stale (e.g. "x := map{}" records
+				// nil before the make): prefer a later mention, inside the region dominated by
+				// the query block, of a value that is already available at the query point.
+				var alt *nameDef
+				for i := range cands {
+					c := &cands[i]
+					if c.block == b && c.idx < idx {
+						continue
+					}
+					if !(c.block == b || b.Dominates(c.block)) {
+						continue
+					}
+					avail := false
+					switch v := c.val.(type) {
+					case *ssa.Phi:
+						avail = v.Block() == b || v.Block().Dominates(b)
+					case *ssa.Parameter, *ssa.FreeVar:
+						avail = true
+					case *ssa.Const:
+						avail = false
+					case ssa.Instruction:
+						avail = v.Block() != b && v.Block().Dominates(b) || (v.Block() == b && instrIndex(v) < idx)
+					}
+					if avail && (alt == nil || c.block.Index < alt.block.Index || (c.block == alt.block && c.idx < alt.idx)) {
+						alt = c
+					}
+				}
+				if alt != nil {
+					return alt.val, alt.isAddr, true
+				}
+			}
 			return best.val, best.isAddr, true
 		}
 		if blk == b {
@@ -900,3 +954,14 @@ func (e *Enc) initGhosts(st *bstate, ref string, t types.Type) {
 		e.assert(sEq(nv, app("store", old, ref, e.W.zero(vt))))
 	}
 }
+
+func instrIndex(in ssa.Instruction) int {
+	for i, x := range in.Block().Instrs {
+		if x == in {
+			return i
+		}
+	}
+	return -1
+}
+
+var dummyPkg = types.NewPackage("verif/builtin", "builtin")
